@@ -19,7 +19,7 @@ import (
 
 // C14: mixed-kind arithmetic follows one promotion rule.
 // Model: rank order uint<uint8<..<uint64<int<int8<..<int64<float32<float64;
-// expected = Go result after reflect.Convert of the lower-ranked operand.
+// expected = Go result after a Go conversion of the lower-ranked operand (integers reach float32 directly, not through float64).
 
 type NumEnv struct {
 	LU   uint
@@ -79,7 +79,8 @@ func gridFor(k reflect.Kind) []reflect.Value {
 	case reflect.Int32:
 		addI(0, 1, -1, math.MinInt32, math.MaxInt32, 65535, 65536, 16777217, -32769)
 	case reflect.Int64, reflect.Int:
-		addI(0, 1, -1, math.MinInt64, math.MaxInt64, math.MaxInt64-1, 1<<53+1, 16777217, 255, 256, 65536, -129, math.MaxInt32+1, math.MinInt32-1)
+		// 2^63-2^38-383 rounds to 2^63-2^39 as float32, but to 2^63 if taken through float64 first
+		addI(0, 1, -1, math.MinInt64, math.MaxInt64, math.MaxInt64-1, 1<<53+1, 16777217, 255, 256, 65536, -129, math.MaxInt32+1, math.MinInt32-1, 1<<63-1<<38-383)
 	case reflect.Uint8:
 		addU(0, 1, math.MaxUint8, math.MaxUint8-1, 127, 128, 2)
 	case reflect.Uint16:
@@ -87,7 +88,7 @@ func gridFor(k reflect.Kind) []reflect.Value {
 	case reflect.Uint32:
 		addU(0, 1, math.MaxUint32, 65535, 65536, 1<<31-1, 1<<31, 16777217)
 	case reflect.Uint64, reflect.Uint:
-		addU(0, 1, math.MaxUint64, math.MaxUint64-1, 1<<63, 1<<63-1, 1<<53+1, 255, 256, 65536, 1<<32)
+		addU(0, 1, math.MaxUint64, math.MaxUint64-1, 1<<63, 1<<63-1, 1<<53+1, 255, 256, 65536, 1<<32, 1<<64-1<<39-700)
 	case reflect.Float32:
 		addF(0, math.Copysign(0, -1), 1, -1, 0.5, 16777216, 16777217, math.MaxFloat32, math.SmallestNonzeroFloat32, math.Inf(1), math.Inf(-1), math.NaN(), -3.75, 1e10, 255.9, -129.5)
 	case reflect.Float64:
@@ -218,7 +219,7 @@ func init() {
 		Rule: "case = (left kind, right kind, operator, left value, right value, typed|untyped compilation); all 12x12 ordered kind pairs x {+ - * / % == != < <= > >= **} plus unary minus on 12 kinds (exhaustive: true for that space) x a boundary grid of 7-18 values per kind, plus seeded random bit patterns; " +
 			"distinct = distinct (operator, kinds, values) tuples",
 		Assumptions: []string{
-			"expected results are computed by family (signed/unsigned/float32/float64) after reflect.Convert of the lower-ranked operand; rank order as in the property",
+			"expected results are computed by family (signed/unsigned/float32/float64) after a Go conversion of the lower-ranked operand (integers reach float32 directly, not through float64); rank order as in the property",
 			"one architecture (64-bit int)",
 		},
 		Phases: []runner.Phase{
@@ -268,6 +269,74 @@ func init() {
 					}
 					if idx%29 == 0 {
 						c.Sample(map[string]interface{}{"source": fmt.Sprintf("%s + %s", ln, rn), "left_values": len(lg), "right_values": len(rg), "operators": c14Ops})
+					}
+				},
+			},
+			{
+				// int and float literals of equal value in one program: each
+				// keeps its own kind (`I / 2` truncates, `I / 2.0` does not)
+				Name: "literals",
+				N:    func(string) uint64 { return 12 * 7 * 2 },
+				Run: func(c *runner.Ctx, idx uint64) {
+					ops := []string{"+", "-", "*", "/", "==", "<", ">="}
+					ki, oi, lit := int(idx)/14, int(idx)/2%7, int(idx)%2 == 0
+					k, name, op := term.NumKinds[ki], "L"+c14Suffix[ki], ops[oi]
+					c.Begin(fmt.Sprintf("literals %s %s", name, op))
+					vals := gridFor(k)
+					for i := 0; i < 4; i++ {
+						vals = append(vals, randomOfKind(c.R, k))
+					}
+					for _, n := range []int{1, 2, 3, 7, 10, 100} {
+						is, fs := fmt.Sprint(n), fmt.Sprintf("%d.0", n)
+						var src string
+						if lit {
+							src = fmt.Sprintf("[%s %s %s, %s %s %s, %s %s %s]", is, op, name, fs, op, name, is, op, name)
+						} else {
+							src = fmt.Sprintf("[%s %s %s, %s %s %s, %s %s %s]", name, op, fs, name, op, is, name, op, fs)
+						}
+						p := get(c, src)
+						for _, a := range vals {
+							var env NumEnv
+							setField(&env, name, a)
+							one := func(lv interface{}) interface{} {
+								x, y := a.Interface(), lv
+								if lit {
+									x, y = y, x
+								}
+								switch op {
+								case "+", "-", "*", "/":
+									v, f := ref.Arith(op, x, y)
+									if f != nil {
+										return "fails"
+									}
+									return v
+								}
+								return ref.Compare(op, x, y)
+							}
+							wi, wf := one(n), one(float64(n))
+							if wi == "fails" || wf == "fails" {
+								continue
+							}
+							want := []interface{}{wi, wf, wi}
+							if !lit {
+								want = []interface{}{wf, wi, wf}
+							}
+							c.Distinct(fmt.Sprintf("%s|%v", src, mon.Canon(a.Interface())))
+							c.Count("literal_cases", 1)
+							for mode, prog := range map[string]*vm.Program{"typed": p.typed, "untyped": p.untyped} {
+								if prog == nil {
+									continue
+								}
+								o := SafeRun(prog, env)
+								c.Eval(1)
+								if o.Failed() || mon.Canon(o.Val) != mon.Canon(want) {
+									c.Violate(fmt.Sprintf("literal-kinds:%s(%s)", op, a.Kind()), fmt.Sprintf("got %s want %s", o.String(), mon.Short(want)),
+										map[string]interface{}{"source": src, "mode": mode, "operand": mon.Short(a.Interface()), "expected": mon.Short(want), "real": o.String()})
+								} else {
+									c.Count("agreed", 1)
+								}
+							}
+						}
 					}
 				},
 			},
